@@ -105,6 +105,13 @@ BITOPS_RULE = (" bitops: per case 16 lines through the REAL bit_ops.rs (first / 
                "boundaries (bit offsets 0..8, lengths 0 / 1 / 63 / 64 / 65 / ..., keys sharing 0..255 bits, separators with many trailing zero bytes) and outside the documented contract (panic / silent garbage "
                "must be predicted by the mirror); bitops-node: the REAL BranchNodeBuilder (new / push / push_chunk with every prefix relation) and get_key on caller-supplied pages, page bytes compared with the "
                "Lean builder mirror byte for byte; oracle: naive bit-by-bit implementations in the harness.")
+# the real SegmentedLog on a scratch directory, the delta codec and Rollback::read (hook H8) against the Lean model of the seglog as a
+# directory of segment files (driver mode `seglog`)
+SEGLOG_RUN = {"cmd": "seglog", "mode": "seglog", "cases": {"quick": 150, "thorough": 1500}, "shards": {"quick": 4, "thorough": 16}, "per_shard_cases": False}
+SEGLOG_RULE = (" seglog: random operation sequences on the REAL SegmentedLog in a scratch directory (append with payload sizes around the segment size: roll-overs, multi-segment prunes, single-record segments; "
+               "prune_oldest / prune_recent; close and reopen with chosen live ranges): after EVERY operation the directory listing (file names, sizes, FNV-1a of the bytes) and the records returned by reopening with the "
+               "current live range must equal the Lean model; crash images built through the I/O hook (the k-th effect of an operation and every later one fail; torn appends; lost unlinks) must be opened by the real "
+               "code as the model predicts; Delta::encode / decode and Rollback::read (`rbread`) on generated and malformed inputs.")
 IMG_RUN = {"cmd": "image", "mode": "image", "cases": {"quick": 24, "thorough": 400}, "shards": {"quick": 8, "thorough": 16}}
 # directed replay (corpus): history 18 of image seed 1000 — 1616 fat-valued keys, half of them under a 200-bit common prefix;
 # the commit that splits the branch node writes a separator whose last bit is lost (see KNOWN finding candidate F13 in the report)
@@ -218,11 +225,12 @@ PROPS = {
         "trusted_base": API_TB, "assumptions": API_ASSUME,
     },
     "C09": {
-        "lines": ['rollback', 'root', 'dread', 'seqn', 'reopen', 'commit', 'trycommit'],
+        "lines": ['rollback', 'root', 'dread', 'seqn', 'reopen', 'commit', 'trycommit',
+                  'append', 'close', 'crash', 'deltadec', 'deltaenc', 'new', 'open', 'probe', 'pruneold', 'prunerecent', 'rbread', 'reprobe'],
         "tags": ['C09', 'C01', 'C02'],
         "runs": DB_SCN(["stale-nonblocking-then-rollback", "reopen-resurrects-pruned-delta", "rollback-all-then-reopen", "rollback-reopen-rollback-reopen", "overwrite-huge-value-with-rollback"]) + [
-            DB("rollback", 200, 2000, nops=18), DB("rollback", 120, 1200, nops=20, segsize=8192), DB("general", 80, 800, nops=16, big=True), CHURN],
-        "rule": DB_RULE + " C09 focus: max_rollback_log_len in {1,2,3,5}; rollback(n) with n in {0,1,2,len,len+1}; rollbacks after reopen, after stale commits, over overlay commits and large values; the oracle keeps the previous committed maps.",
+            DB("rollback", 200, 2000, nops=18), DB("rollback", 120, 1200, nops=20, segsize=8192), DB("general", 80, 800, nops=16, big=True), CHURN, dict(SEGLOG_RUN)],
+        "rule": DB_RULE + SEGLOG_RULE + " C09 focus: max_rollback_log_len in {1,2,3,5}; rollback(n) with n in {0,1,2,len,len+1}; rollbacks after reopen, after stale commits, over overlay commits and large values; the oracle keeps the previous committed maps.",
         "trusted_base": API_TB, "assumptions": API_ASSUME + ["segment roll-over and pruning of the rollback log are reached through the cfg(nomt_verif) segment-size override (8 KiB segments); the 64 MiB default is not reached by quick runs"],
     },
     "C11": {
@@ -243,9 +251,9 @@ PROPS = {
     # ---------------- crash / power-loss / fault enumeration (harness/src/crash.rs + cfg(nomt_verif) I/O hook) ----------------
     "C03": {
         "exclude_tags": ["C04", "C17"],
-        "runs": [dict(WAL_RUN), CRASH("crash", "general", 6, 60, steps=2, shards_q=6, wal=True), CRASH("crash", "rollback", 3, 30, steps=2, shards_q=3), CRASH("crash", "rollback", 3, 30, steps=2, shards_q=3, nops=12, segsize=8192),
+        "runs": [dict(WAL_RUN), dict(SEGLOG_RUN), CRASH("crash", "general", 6, 60, steps=2, shards_q=6, wal=True), CRASH("crash", "rollback", 3, 30, steps=2, shards_q=3), CRASH("crash", "rollback", 3, 30, steps=2, shards_q=3, nops=12, segsize=8192),
                  CRASH("nested", "general", 2, 20, steps=1, shards_q=2), CRASH("crash", "kv", 2, 20, steps=1, shards_q=2, big=True)] + SCRIPTED("nested") + SCRIPTED("crash"),
-        "rule": CRASH_RULE + WAL_RULE + " C03: process crash (every issued effect stays) at EVERY event index of the chosen operations (session commits, overlay commits, rollbacks), plus nested crashes at every event of the recovery itself (each probe on a fresh copy of the crashed directory), and two directed multi-segment rollback histories with 8 KiB rollback segments. distinct & non-trivial = distinct (operation, event index strictly inside the operation, variant) triples.",
+        "rule": CRASH_RULE + WAL_RULE + SEGLOG_RULE + " C03: process crash (every issued effect stays) at EVERY event index of the chosen operations (session commits, overlay commits, rollbacks), plus nested crashes at every event of the recovery itself (each probe on a fresh copy of the crashed directory), and two directed multi-segment rollback histories with 8 KiB rollback segments. distinct & non-trivial = distinct (operation, event index strictly inside the operation, variant) triples.",
         "trusted_base": DISK_TB, "assumptions": DISK_ASSUME,
     },
     "C04": {
@@ -265,7 +273,7 @@ PROPS = {
     "C10": {
         "tags": ['C10', 'C01', 'C02', 'C05', 'C09'],
         "runs": DB_SCN(["reopen-resurrects-pruned-delta", "rollback-all-then-reopen", "rollback-reopen-rollback-reopen"]) + DB_SCRIPT(["script-freelist-reopen"]) + [DB("reopen", 200, 2000, nops=18), DB("reopen", 6, 60, nops=16, big=True, scale=50, shards_q=6), DB("rollback", 60, 600, nops=16), DB("reopen", 80, 800, nops=18, segsize=8192),
-                 CRASH("crash", "reopen", 2, 20, steps=1, shards_q=2), CHURN, dict(ALLOC_LOOKUP)],
+                 CRASH("crash", "reopen", 2, 20, steps=1, shards_q=2), CHURN, dict(ALLOC_LOOKUP), dict(SEGLOG_RUN)],
         "rule": DB_RULE + ALLOC_LOOKUP_RULE + " C10 focus: the handle is dropped and reopened (with an independently drawn runtime configuration: workers, cache sizes, io workers, warm-up, prepopulation, upper levels) at random positions, up to half of all steps; after every reopen root, sync_seqn, sampled values, hash_table_utilization().occupied (must equal the pre-close value) and all later commits / rollbacks are compared with a model that ignores close/open.",
         "trusted_base": API_TB, "assumptions": API_ASSUME + ["open retried for up to 5 s when the old handle's directory lock is still held by a background thread (that delay is C20's subject)"],
     },
